@@ -244,7 +244,7 @@ def gen_payload(rng, enc, wild):
     return {"k": "lines", "v": out}
 
 
-WILD_MODES = ["t", "b", "wt", "wb", "at", "a", "w", "ab", "t+", "b+", "wb+", "w+b", "at+", "", "tb", "wtt", "wz", "aw", "x", "r", "+"]
+WILD_MODES = ["t", "b", "wt", "wb", "at", "a", "w", "ab", "t+", "b+", "wb+", "w+b", "at+", "", "tb", "wtt", "wz", "aw", "a", "w", "ab", "wb+", "", "+"]
 READ_MODES = ["t", "t", "t", "b", "b", "", "rt", "rb", "t+", "tb", "tz"]
 
 
@@ -255,7 +255,7 @@ def gen_hist(rng):
         t = gen_text(rng, ("\r",))
         init = (BOM.decode("latin-1") if rng.random() < 0.3 else "") + t.encode(enc if encodable(t, enc) else "utf-8").decode("latin-1")
     ops = []
-    eol = rng.choice(EOLS + EOLS + ["", "é|", "\r\r"])
+    eol = rng.choice(EOLS * 6 + ["", "é|", "é|", "é|", "\r\r", "\r\r"])
     exists = init is not None
     for _ in range(rng.choice([1, 1, 2, 2, 3, 4])):
         if rng.random() < 0.25:
@@ -265,6 +265,8 @@ def gen_hist(rng):
         r = rng.random() if exists else 0.0
         if r < 0.55:
             mode = rng.choice(SAVE_MODES) if rng.random() < 0.8 or not exists else rng.choice(WILD_MODES)
+            if rng.random() < 0.01:
+                mode = rng.choice(["x", "r", "r+"])   # outside the model (answered `unsupported`)
             exists = True
             op = {"op": "S", "enc": enc, "mode": mode, "eol": eol, "payload": gen_payload(rng, enc, True)}
             if op["payload"]["k"] == "dict" and rng.random() < 0.3:
@@ -522,7 +524,7 @@ def gen_prop_case(rng):
 
 
 def run(ctx):
-    n = ctx.budget(1500, 40000)
+    n = ctx.budget(5000, 150000)
     # ---- B0: codecs
     rng = ctx.rng("codec")
     cc = []
